@@ -323,6 +323,16 @@ Definition split_input (st : io_status) (tv : tval) (zero : value) (r0 r1 g0 g1 
 Definition slot (k : nat) (tv : tval) : option value :=
   match snd tv with VNode vs => nth_error vs k | VLeaf _ => None end.
 
+(* party i's tuple p holds shares i and i+1 of s in slots i and i+1, and entry i+2 of the
+   garbage list g in slot i+2 *)
+Definition party_holds (i : nat) (p : tval) (s g : list value) : Prop :=
+  slot i p = nth_error s i /\
+  slot ((i + 1) mod 3) p = nth_error s ((i + 1) mod 3) /\
+  slot ((i + 2) mod 3) p = nth_error g ((i + 2) mod 3).
+
+(* the types on which TypedValue::new / check_type do not fail *)
+Definition ty_ok (t : ty) : Prop := exists s, size_in_bits t = Ok s.
+
 (* Two parties i <> j pool what they hold: party i contributes its slots i and i+1, the
    remaining slot i+2 is taken from party j (for whom it is a genuine share, not garbage). *)
 Definition combine_two (i : nat) (pi pj : tval) : result tval :=
